@@ -142,7 +142,9 @@ def features(obj, env, route):
             v = env.get(lf.ref)
             if v is not None:
                 x = v.value if lf.calibrated else v.raw
-                if not x:
+                if isinstance(x, float) and x != x:
+                    f.add("nan-operand")
+                elif not x:
                     f.add("falsy-cal-operand" if lf.calibrated else "falsy-raw-operand")
                 f.add("rel-" + ir.OPS[lf.op])
         else:
@@ -151,6 +153,8 @@ def features(obj, env, route):
             if a is not None and b_ is not None:
                 x, y = (a.value if lf.left_cal else a.raw), (b_.value if lf.right_cal else b_.raw)
                 kx, ky = kind_of(x), kind_of(y)
+                if any(isinstance(z, float) and z != z for z in (x, y)):
+                    f.add("nan-operand")
                 if kx != ky:
                     f.add(f"{kx}-vs-{ky}")
             f.add("rel-" + ir.OPS[lf.op])
@@ -167,7 +171,9 @@ def operand_cases():
     out = []
     for v in (0, 1, -1, 2, 7, 255):
         out.append(("int", v, v))
-    for v, r in ((0.0, 0), (-0.0, 0), (0.5, 1), (1.0, 2), (-2.5, -5), (1e10, 3), (2.0, 4)):
+    for v, r in ((0.0, 0), (-0.0, 0), (0.5, 1), (1.0, 2), (-2.5, -5), (1e10, 3), (2.0, 4),
+                 (float("nan"), 5), (float("inf"), 6), (float("-inf"), -7), (3.0, float("nan"))):
+        # not-a-number (a common "no data" fill) is unordered: only != holds; the infinities are ordinary ordered values
         out.append(("float", v, r))
     for v, r in (("", 0), ("A", 1), ("OFF", 0), ("ON", 1), ("b", 2), ("AB  ", 3), (" A", 4)):
         out.append(("str", v, r))
@@ -180,7 +186,7 @@ def literals_for(x):
     if isinstance(x, bool) or isinstance(x, int):
         return [str(int(x)), str(int(x) + 1), str(int(x) - 1), "0"]
     if isinstance(x, float):
-        return [repr(x), repr(x + 0.5), "0", "0.0", "-1", "1e10"]
+        return [repr(x), repr(x + 0.5), "0", "0.0", "-1", "1e10"] + (["nan", "inf", "-inf"] if (x != x or x in (1.0, 0.0) or abs(x) == float("inf")) else [])
     return [x or "B", "A", "ON", "a", x + "  ", " " + x, "AB  "]
 
 
@@ -222,12 +228,12 @@ def run(ctx):
                         c = ir.Comparison("SELF", str(int(raw)) if isinstance(raw, int) else repr(raw), op, False)
                         judge(ctx, "comparison", c, B.make(c, "ctor"), packets.CCSDSPacket(), {}, "ctor",
                               (ir.OPS[op], "self", kind_of(raw), "falsy" if falsy(raw) else "truthy"), current=raw)
-    ctx.exhaustive_space("16 operator spellings x 2 selectors x 21 operand cases x literals x 2 routes", 1)
+    ctx.exhaustive_space("16 operator spellings x 2 selectors x 25 operand cases x literals x 2 routes", 1)
 
     # ---- 2. Condition parameter-vs-parameter incl. int-vs-float in both orders ------------------------------------
     pool = [("int", 0, 0), ("int", 3, 3), ("int", -1, -1), ("float", 0.0, 0), ("float", 3.0, 6), ("float", 2.5, 5),
             ("float", -0.0, 0), ("bool", True, 1), ("bool", False, 0), ("str", "A", 1), ("str", "", 0), ("int", 2 ** 53 + 1, 1),
-            ("float", float(2 ** 53), 2)]
+            ("float", float(2 ** 53), 2), ("float", float("nan"), 4), ("float", float("inf"), 7)]
     for op in SPELLINGS:
         for a, b_ in itertools.product(pool, repeat=2):
             item += 1
@@ -242,7 +248,7 @@ def run(ctx):
                 sig = (ir.OPS[op], "cal" if lc else "raw", "cal" if rc else "raw", kind_of(la), kind_of(rb))
                 route = routes[item % 2]
                 judge(ctx, "condition-param", cd, B.make(cd, route), pkt, env, route, sig)
-    ctx.exhaustive_space("16 spellings x 13x13 operand pairs x 4 selector combinations", 1)
+    ctx.exhaustive_space("16 spellings x 15x15 operand pairs x 4 selector combinations", 1)
 
     # ---- 3. boolean expression trees: all shapes <= 4 leaves x all assignments ---------------------------------
     leaves = [ir.Condition("A", "==", right_value="1", right_cal=False), ir.Condition("A", "<", right_param="B"),
